@@ -131,13 +131,23 @@ Definition vmodel_parts (attr_value : node) (is_component : bool) (argument : op
   end.
 
 (* expressions `(value) = $event` can assign to *)
-Definition is_assignable (v : node) : bool :=
+(* parentheses and type wrappers are looked through *)
+Fixpoint is_assignable (v : node) {struct v} : bool :=
   match v with
-  | Ident _ _ _ | Member _ _ | Paren _ => true
-  | NObj _ =>
+  | Ident _ _ _ | Member _ _ => true
+  | Paren e => is_assignable e
+  | NObj fs =>
       let t := ntype v in
-      sq "SuperPropExpression" t || sq "TsAsExpression" t || sq "TsNonNullExpression" t
-      || sq "TsSatisfiesExpression" t || sq "TsTypeAssertion" t
+      if sq "SuperPropExpression" t then true
+      else if sq "TsAsExpression" t || sq "TsNonNullExpression" t
+              || sq "TsSatisfiesExpression" t || sq "TsTypeAssertion" t
+      then (fix find (l : list node) : bool :=
+              match l with
+              | Field k e :: r => if sq "expression" k then is_assignable e else find r
+              | _ :: r => find r
+              | [] => false
+              end) fs
+      else false
   | _ => false
   end.
 
